@@ -1,0 +1,39 @@
+//go:build verif
+
+package build
+
+import (
+	"context"
+
+	"chainguard.dev/apko/pkg/apk/apk"
+)
+
+// VerifC01PostBuildSetApk runs postBuildSetApk (verification hook, C01): it
+// rewrites etc/apk/repositories with the runtime repositories.
+func (bc *Context) VerifC01PostBuildSetApk(ctx context.Context) error {
+	return bc.postBuildSetApk(ctx)
+}
+
+// VerifC01Group is one group returned by groupByOriginAndSize.
+type VerifC01Group struct {
+	Size       uint64
+	Tiebreaker string
+	Names      []string
+}
+
+// VerifC01GroupByOriginAndSize runs groupByOriginAndSize (verification hook, C01).
+func VerifC01GroupByOriginAndSize(pkgs []*apk.Package, budget int) ([]VerifC01Group, error) {
+	groups, err := groupByOriginAndSize(pkgs, budget)
+	if err != nil {
+		return nil, err
+	}
+	out := make([]VerifC01Group, 0, len(groups))
+	for _, g := range groups {
+		v := VerifC01Group{Size: g.size, Tiebreaker: g.tiebreaker}
+		for _, p := range g.pkgs {
+			v.Names = append(v.Names, p.Name)
+		}
+		out = append(out, v)
+	}
+	return out, nil
+}
